@@ -93,6 +93,7 @@ Proof.
       apply Hgen; auto. unfold has_to_stop. cbn. intros H. apply orb_true_iff in H. apply orb_true_iff.
       destruct H as [H|H]; [left; rewrite H, orb_true_r; reflexivity | right; auto].
     + apply Hgen; auto.
+    + apply Hgen; auto.
     + exact HG.
   - destruct (nth_error (workers s) i) eqn:Ei; auto. apply invG_worker; auto.
   - destruct HG as [G1 G2]. unfold invG, has_to_stop, sends_after_stop in *. cbn.
@@ -175,8 +176,11 @@ Proof.
         destruct ((if is_interrupt e || stop s then true else stop s) || false);
           repeat split; auto; try lia; try discriminate; intros ? H; discriminate.
     + unfold processed in H1. rewrite Ecp in H1. unfold invH, processed. cbn [cp emitted counter limit].
-      destruct (forallb is_dead (workers s) && (if drain_fix c then match queue s with [] => true | _ :: _ => false end else true));
-        repeat split; auto; try (intros H; specialize (H4 H); discriminate); intros e H; discriminate.
+      destruct (forallb is_dead (workers s)); [destruct (drain_fix c)|];
+        repeat split; auto; try (intros H; specialize (H4 H); discriminate); intros ? H; discriminate.
+    + unfold processed in H1. rewrite Ecp in H1. unfold invH, processed. cbn [cp emitted counter limit].
+      destruct (queue s);
+        repeat split; auto; try (intros H; specialize (H4 H); discriminate); intros e0 H; discriminate.
     + unfold invH. rewrite Ecp. repeat split; auto.
   - destruct (nth_error (workers s) i) eqn:Ei; [|repeat split; auto].
     destruct (worker_step_flags c s i w) as (F1 & F2 & F3). destruct (worker_step_frame c s i w) as (F4 & F5).
